@@ -8,6 +8,7 @@ import exp
 from exp import Agg, Int, Lin, Opt, Ref, SliceIt, TOP
 from facts import callee
 from props import common
+from props import c03lines
 from wire import Origin, strip, term_str
 
 PROP = 'C03'
@@ -40,12 +41,17 @@ def producer_pattern(fx, rep):
             if nm == 'is_zero' and c.get('trait') == 'CurveAffine':
                 fr.storev(t['dest'], Int(qzero, 1))
                 return True
-            if res.startswith(p + '::') and fx.body(res) is not None and '{closure' not in res:
-                # the step functions, by role: one point argument = doubling step, point + base = addition step
-                # (what each of them computes is decided by c03lines)
+            if c03lines.is_step_function(fx, p, res):
+                # the step functions, by role: they take the running (projective) point first; one point argument =
+                # doubling step, point + base = addition step (what each of them computes is decided by c03lines)
                 kind = 'doubling_step' if fx.body(res).arg_count == 1 else 'addition_step'
                 steps.append(kind)
-                fr.storev(t['dest'], ('coeff', kind, len(steps) - 1))
+                cf_ = ('coeff', kind, len(steps) - 1)
+                if c03lines.returns_point_too(fx, res):
+                    # the pure form: (new running point, coefficients)
+                    fr.storev(t['dest'], Agg([('running-point', len(steps)), cf_]))
+                else:
+                    fr.storev(t['dest'], cf_)
                 return True
             if res.startswith('std::vec::Vec::<T>::new') or 'from_elem' in res or 'vec::from_elem' in c['def']:
                 fr.storev(t['dest'], Agg([], ('vec', 'Vec')))
@@ -69,7 +75,7 @@ def producer_pattern(fx, rep):
             rep.check(ok, 'GUARD', 'G2Prepared::from_affine:identity', 'identity -> marker (no coefficients, infinity = true) before any coefficient code',
                       'identity input yields %r after %d line computations' % (ret, len(steps)), where, construct=p)
         else:
-            ok = isinstance(coeffs, Agg) and isinstance(inf, Int) and inf.v == 0 and [c_[1] for c_ in coeffs.items] == steps
+            ok = isinstance(coeffs, Agg) and isinstance(inf, Int) and inf.v == 0 and [(c_[1] if isinstance(c_, tuple) and len(c_) > 1 else None) for c_ in coeffs.items] == steps
             rep.check(ok, 'SHAPE', 'G2Prepared::from_affine:coefficients', '%d line coefficients pushed in computation order, infinity = false' % len(steps),
                       'coefficient list %r does not match the %d computed steps' % (coeffs, len(steps)), where, construct=p)
             out['steps'] = steps
@@ -463,12 +469,43 @@ def rule_wiring(fx, rep):
         rep.fn(pw)
         import inline as INL
 
+        def deepv(fr, v, depth=0):
+            for _ in range(6):
+                if isinstance(v, exp.Ref):
+                    v = fr._project(fr.store.get(v.root, exp.TOP), v.proj)
+                else:
+                    break
+            if isinstance(v, exp.Agg) and type(v) is exp.Agg and depth < 4:
+                return exp.Agg([deepv(fr, x, depth + 1) for x in v.items], v.kind)
+            return v
+
         def trp(I, fr, t, c, pth):
             if c.get('name') == 'pairing' and c.get('trait') == 'Engine':
                 if not (c.get('self_ty') or '').endswith('Bls12'):
                     return False
                 fr.storev(t['dest'], ('pairing', fr.deref_operand(t['args'][0]), fr.deref_operand(t['args'][1])))
                 return True
+            # the pairing spelled out: final_exponentiation(miller_loop([(prepare(p), prepare(q))])).unwrap() is what
+            # Engine::pairing is (decided by the wiring rule), so it is read as that value
+            if c.get('name') == 'prepare' and c.get('trait') == 'CurveAffine' and len(t['args']) == 1:
+                v = fr.deref_operand(t['args'][0])
+                if isinstance(v, str):
+                    fr.storev(t['dest'], ('prepared', v))
+                    return True
+            if c.get('name') == 'miller_loop' and c.get('trait') == 'Engine' and (c.get('self_ty') or '').endswith('Bls12') and len(t['args']) == 1:
+                v = deepv(fr, I.value_of_ref(fr, t['args'][0]))
+                if isinstance(v, exp.SliceIt):
+                    v = exp.Agg([deepv(fr, x) for x in v.items[v.pos:]])
+                if isinstance(v, exp.Agg) and all(isinstance(x, exp.Agg) and len(x.items) == 2 for x in v.items):
+                    fr.storev(t['dest'], ('ml', tuple((x.items[0], x.items[1]) for x in v.items)))
+                    return True
+                return False
+            if c.get('name') == 'final_exponentiation' and c.get('trait') == 'Engine' and len(t['args']) == 1:
+                v = fr.deref_operand(t['args'][0])
+                if isinstance(v, tuple) and v and v[0] == 'ml' and len(v[1]) == 1 and all(isinstance(x, tuple) and x and x[0] == 'prepared' for x in v[1][0]):
+                    fr.storev(t['dest'], exp.Opt('some', ('pairing', v[1][0][0][1], v[1][0][1][1])))
+                    return True
+                return False
             if c.get('name') in ('into', 'from', 'clone', 'into_affine', 'borrow', 'as_ref') and len(t['args']) == 1:
                 v = fr.deref_operand(t['args'][0])
                 if isinstance(v, str):
@@ -483,7 +520,11 @@ def rule_wiring(fx, rep):
                 fr.storev(t['dest'], 'ONE')
                 return True
             return False
-        I = exp.Interp(fx, 'none', extra_transfer=trp, inline=lambda q: INL.is_private_helper(fx, q))
+        import stdmodel as _SM
+
+        def trp2(I_, fr_, t_, c_, pth_):
+            return trp(I_, fr_, t_, c_, pth_) or _SM.std_transfer(I_, fr_, t_, c_, pth_)
+        I = exp.Interp(fx, 'none', extra_transfer=trp2, inline=lambda q: INL.is_private_helper(fx, q))
         okp, why = False, ''
         try:
             res = I.run(pw, [('byref', 'SELF'), ('byref', 'OTHER')])
